@@ -128,7 +128,8 @@ def program(draw, emphasis='c01'):
 
 def case_strategy(emphasis):
     lines = executed_lines()
-    sched = schedule_strategy(max_decision=900, lines=lines, nthreads=4, walk_len=400)
+    sched = schedule_strategy(max_decision=900, lines=lines, nthreads=4, walk_len=400,
+                              modes=('sparse', 'line', 'pct', 'walk', 'none') + (('stall',) if emphasis == 'c01' else ()))
     main = st.builds(lambda p, s: dict(p, sched=s), program(emphasis), sched)
     if emphasis == 'c01':
         return main
